@@ -36,6 +36,7 @@ func c03Routes(proto string) []routeSpec {
 	return []routeSpec{
 		{Key: "fast", Cluster: "cl-$P", Extra: jmap{"timeout": "800ms"}},
 		{Key: "retry", Cluster: "cl-$P", Extra: jmap{"timeout": "1500ms", "retry_policy": jmap{"retry_on": true, "retry_timeout": "200ms", "num_retries": 2}}},
+		{Key: "retry0", Cluster: "cl-$P", Extra: jmap{"timeout": "900ms", "retry_policy": jmap{"retry_on": true, "num_retries": 2}}}, // no per-try timeout
 		{Key: "nocluster", Cluster: "cl-does-not-exist", Extra: jmap{"timeout": "800ms"}},
 		{Key: "empty", Cluster: "cl-$P-empty", Extra: jmap{"timeout": "800ms"}},
 		{Key: "dead", Cluster: "cl-$P-dead", Extra: jmap{"timeout": "800ms"}},
@@ -53,6 +54,9 @@ type c03Case struct {
 
 var c03Plans = []string{"ok", "ok", "s503", "s404", "d60:ok", "stall", "close", "rst", "half", "d1200:ok", "b70000:ok"}
 var c03RetryPlans = []string{"ok", "s503|ok", "s503|s503|ok", "s503", "stall|ok", "stall", "close|ok", "close", "rst|rst|ok", "d300:ok|ok", "d300:s503|d300:ok", "half|ok", "s503|stall", "stall|close|ok"}
+
+// plans for the retry route WITHOUT a per-try timeout: the retry is decided from the response status / reset reason only
+var c03Retry0Plans = []string{"ok", "s503|ok", "s503|s503|ok", "s503|stall", "s503|d1200:ok", "close|ok", "s503|close|ok", "s503"}
 
 func c03Judge(c *lab.Ctx, cs c03Case, ev clEvent, e *engine, where string) {
 	sig := fmt.Sprintf("%s/route=%s/plan=%s", cs.proto, cs.key, planClass(cs.plan))
@@ -153,8 +157,10 @@ func c03Engine(c *lab.Ctx) {
 						cs.key, cs.plan = "dead", "ok"
 					case 3:
 						cs.key, cs.plan = "zzz-noroute", "ok"
-					case 4, 5, 6:
+					case 4, 5:
 						cs.key, cs.plan = "retry", c03RetryPlans[crng.Intn(len(c03RetryPlans))]
+					case 6:
+						cs.key, cs.plan = "retry0", c03Retry0Plans[crng.Intn(len(c03Retry0Plans))]
 					default:
 						cs.key, cs.plan = "fast", c03Plans[crng.Intn(len(c03Plans))]
 					}
